@@ -14,6 +14,7 @@ fn shape(font: &LFont, c: &Compiled, feature: &str, input: &[&str]) -> ShapeResu
         coords: vec![],
         gsub: true,
         gpos: false,
+        alternate_index: 0,
     };
     let r = font.shape(&req, &c.gids(input));
     assert!(r.problems.is_empty(), "problems: {:?}", r.problems);
@@ -87,6 +88,17 @@ fn single_multiple_alternate_ligature_extension() {
         Some(c.gids(&["a.alt", "a.alt2"]))
     );
     assert_eq!(font.alternates(salt_lookups[0], c.gid("b")), None);
+    let second = ShapeRequest {
+        features: FeatureSel::Only(vec!["salt".into()]),
+        alternate_index: 1,
+        ..ShapeRequest::all("latn", "dflt")
+    };
+    assert_eq!(c.names_of(&font.shape(&second, &c.gids(&["a", "b"])).gids()), ["a.alt2", "b"]);
+    let third = ShapeRequest {
+        alternate_index: 2,
+        ..second.clone()
+    };
+    assert_eq!(c.names_of(&font.shape(&third, &c.gids(&["a"])).gids()), ["a"]);
     // type 4: longest ligature first, cursor moves past the consumed components
     assert_eq!(
         shaped_names(&font, &c, "liga", &["f", "f", "i", "f", "i", "f", "f", "a", "f"]),
@@ -264,6 +276,7 @@ feature rlig {{ sub f i by f_i; }} rlig;
 }
 
 #[test]
+#[allow(clippy::useless_format)]
 fn mark_filtering_set_and_mark_attachment_type() {
     let fea = format!(
         "languagesystem DFLT dflt;\nlanguagesystem latn dflt;
